@@ -679,8 +679,10 @@ pub fn description_states(
         info.push(("D-unicode(non-ASCII field and variant names) + D-twice(a generic with a tuple / unit argument referred to twice)".into(), 2, 2, true));
     }
     // D-real: the shapes of real metadata in one program (see drivers::real_shapes_program)
-    states.push(js(json!({"prog": serde_json::to_value(real_shapes_program()).unwrap(), "seeds": seeds.min(8)})));
-    info.push(("D-real(130 variants with index gaps, deep module path, skipped middle parameter, 10-tuple, arrays of 64 / 256)".into(), 1, 1, true));
+    for (_, prog) in special_programs() {
+        states.push(js(json!({"prog": serde_json::to_value(prog).unwrap(), "seeds": seeds.min(8)})));
+    }
+    info.push(("D-real(130 variants with index gaps, deep module path, skipped middle parameter, 10-tuple, arrays of 64 / 256) + D-deep(ten modules, five nested generics, a chain of forty-eight structs, ten nested wrappers) + 7 degenerate registries".into(), 9, 9, true));
     // D-width: many draws of every integer kind per seed ([[p; 32]; 32])
     let mut width = 0u64;
     for p in Prim::INTS {
